@@ -155,6 +155,7 @@ impl Prop for C07 {
         let nrows = if n > 100 { g.usize_in(1, 2) } else { g.usize_in(1, 6) };
         let mut rows: Vec<RowProg> = (0..nrows).map(|i| gen_row(g, &cols, true, i + 1 == nrows)).collect();
         settle_short_rows(&mut rows, cols.len());
+        repeat_rows(g, &mut rows);
         Case::Rows { cols, rows, drop_writer: g.chance(1, 5) }
     }
     fn exec(&self, case: &Case) -> Exec {
